@@ -158,14 +158,14 @@ class PairType(MichelsonType, ADTMixin, prim='pair', args_len=None):
         if include_nodes:
             yield self
         for i, item in enumerate(self):
-            if i == 1 and isinstance(item, PairType) and not (item.field_name or item.type_name):
+            if i == 1 and isinstance(item, PairType):
                 yield from item.iter_comb(include_nodes=include_nodes)
             else:
                 yield item
 
     def unpairn_comb(self, count) -> Generator[MichelsonType, None, None]:
         for i, item in enumerate(self):
-            if i == 1 and isinstance(item, PairType) and not (item.field_name or item.type_name) and count > 0:
+            if i == 1 and isinstance(item, PairType) and count > 0:
                 yield from item.unpairn_comb(count - 1)
             else:
                 yield item
